@@ -22875,3 +22875,34 @@ pub mod bench {
 		}));
 	}
 }
+
+#[cfg(feature = "_verif")]
+#[allow(missing_docs)]
+pub mod verif_hooks {
+	use super::*;
+	use bitcoin::hashes::Hash;
+	pub fn mpp_check_onchain_timeout(cltv_expiry: u32, height: u32) -> bool {
+		let part = MppPart {
+			prev_hop: HTLCPreviousHopData {
+				prev_outbound_scid_alias: 0,
+				user_channel_id: None,
+				amount_msat: None,
+				htlc_id: 0,
+				incoming_packet_shared_secret: [0; 32],
+				phantom_shared_secret: None,
+				trampoline_shared_secret: None,
+				blinded_failure: None,
+				channel_id: ChannelId([0; 32]),
+				outpoint: OutPoint { txid: bitcoin::Txid::all_zeros(), index: 0 },
+				counterparty_node_id: None,
+				cltv_expiry: None,
+			},
+			cltv_expiry,
+			value: 0,
+			sender_intended_value: 0,
+			timer_ticks: 0,
+			total_value_received: None,
+		};
+		part.check_onchain_timeout(height)
+	}
+}
